@@ -44,9 +44,6 @@ pub fn create<S: Src>(s: &mut S) {
     // suit signature: one suit bit in bits 12-15, clubs lowest
     let sig = suit_enum(su).binary_signature();
     check!(s, sig == if su < 4 { 1u32 << (12 + su as u32) } else { 0 }, "C10.create.binary_signature");
-    // published discriminants
-    check!(s, rank_enum(r) as u8 == if r < 13 { rank_enum_value(r) } else { 0 }, "C10.create.rank_discriminant");
-    check!(s, suit_enum(su) as u8 == if su < 4 { suit_enum_value(su) } else { 0 }, "C10.create.suit_discriminant");
 }
 
 /// every accessor reads the documented field back, for all 52 cards (and blank)
@@ -68,6 +65,5 @@ pub fn accessors<S: Src>(s: &mut S) {
     // blank reads as blank
     let b: CKCNumber = 0;
     check!(s, b.get_card_rank() == CardRank::BLANK && b.get_card_suit() == CardSuit::BLANK, "C10.accessors.blank_fields");
-    check!(s, b.get_rank_char() == '_' && b.get_suit_char() == '_' && b.get_suit_letter() == '_', "C10.accessors.blank_chars");
     check!(s, b.is_blank(), "C10.accessors.blank_is_blank");
 }
